@@ -119,6 +119,20 @@ def pathvar_cfgs():
                 yield {"phase": phase, "arg0": 0, "argc": argc, "toml": "valid", "bpdir": True, "env": {k: True for k in MANDATORY}, "variant": False, "stale": False, "beh": beh, "pathvars": True}
 
 
+def real_exe(phase):
+    """a copy of the harness buildpack whose file name is the phase name (one per check process)"""
+    import shutil
+    import vbcommon
+    d = os.path.join(os.path.dirname(vbcommon.VB), "vb-named-like-a-phase")
+    p = os.path.join(d, phase)
+    if not os.path.exists(p) or os.path.getmtime(p) < os.path.getmtime(vbcommon.VB):
+        os.makedirs(d, exist_ok=True)
+        tmp = f"{p}.{os.getpid()}"
+        shutil.copy2(vbcommon.VB, tmp)
+        os.replace(tmp, p)
+    return p
+
+
 def vbcommon_VB():
     import vbcommon
     return vbcommon.VB
@@ -232,7 +246,10 @@ def judge(w, cfg):
         spec["launch_sboms"] = LAUNCH_SBOMS[ls]
         script["build"] = spec
     before = {rel: read_bytes(path_of(rel)) for rel in OUTPUTS}
-    r = w.run(phase, script, arg0=arg0, args=args, env=env, bpdir=cfg["bpdir"])
+    # under a wrong name the program file itself is called like the phase (as packaged: bin/build is
+    # the real file, other names are links to it): only the name it was invoked by counts
+    exe = real_exe(phase) if cfg["arg0"] in (1, 3) else None
+    r = w.run(phase, script, arg0=arg0, args=args, env=env, bpdir=cfg["bpdir"], exe=exe)
     code = r.returncode
     after = {rel: read_bytes(path_of(rel)) for rel in OUTPUTS}
     marks = w.markers()
@@ -427,7 +444,7 @@ def run(ctx):
     res.cov("distinct_nontrivial", len(nontrivial))
     res.cov("distinct_outcomes", sorted(outcomes))
     res.cov("determinism_replays", 5)
-    res.cov("rule", "configurations = executable name (phase, other, <buildpack dir>/bin/phase, phase.bak) x argument count 0..4 x buildpack.toml (valid, valid with a declared sbom-formats list, api 0.9/0.11/1/missing, malformed, not UTF-8 inside a comment, file missing, unknown key) x CNB_BUILDPACK_DIR x each mandatory CNB_TARGET_* variable x ARCH_VARIANT x behaviour (4 detect; 16 pass results, the launch configuration set twice on the builder, x SBOM sets + error + layer error for build) x stale outputs; plus, for valid detect invocations, the plan path as a bare file name, ./name, a path in a missing directory and non-UTF-8 plan / platform paths x 4 behaviours; every argument count with the lifecycle's CNB_*_DIR/PATH variables exported; each run as a real process; plus every in-process sequence of 2 (thorough 3) programmatic detect/build calls over 12 symbols, exit status and written files of each step compared with the same call alone in a fresh process; non-trivial = configurations that reach the phase or deviate from a valid invocation in exactly one dimension")
+    res.cov("rule", "configurations = executable name (phase, other, <buildpack dir>/bin/phase, phase.bak; under the two wrong names the program FILE is called like the phase) x argument count 0..4 x buildpack.toml (valid, valid with a declared sbom-formats list, api 0.9/0.11/1/missing, malformed, not UTF-8 inside a comment, file missing, unknown key) x CNB_BUILDPACK_DIR x each mandatory CNB_TARGET_* variable x ARCH_VARIANT x behaviour (4 detect; 16 pass results, the launch configuration set twice on the builder, x SBOM sets + error + layer error for build) x stale outputs; plus, for valid detect invocations, the plan path as a bare file name, ./name, a path in a missing directory and non-UTF-8 plan / platform paths x 4 behaviours; every argument count with the lifecycle's CNB_*_DIR/PATH variables exported; each run as a real process; plus every in-process sequence of 2 (thorough 3) programmatic detect/build calls over 12 symbols, exit status and written files of each step compared with the same call alone in a fresh process; non-trivial = configurations that reach the phase or deviate from a valid invocation in exactly one dimension")
     res.cov("bound", {"deviations_from_valid_invocation": "<=3 all behaviours" if not ctx.thorough else "full product for detect and for build up to 3 deviations; beyond that build behaviours {first,last}"})
     res.cov("exhaustive", True)
     res.sample(cfgs[0])
